@@ -406,6 +406,66 @@ def run(repo, rep, tier):
                             what.split(' ')[0], MAIN, res['node'].lineno,
                             'objects are consumed / the context is deleted '
                             'on a path that has not passed the ' + what)
+    # ---------------- R9: context ids are never reused ----------------------
+    # The id under which _open_response registers a context must come from a
+    # source that does not repeat while the server lives (uuid, or a counter
+    # that only grows).  Anything computed from the context table itself
+    # (its size, its keys) repeats as soon as a context is closed: a new
+    # session then overwrites a live one, or a stale context is accepted.
+    r9 = rep.rule('C14.R9', 'enumeration context ids come from a '
+                  'non-repeating source')
+    ins_keys = []
+    for p_ in (return_paths(opn) or []):
+        for st in p_.effects:
+            if isinstance(st, ast.Assign):
+                for t in st.targets:
+                    if isinstance(t, ast.Subscript) and \
+                            _is_ctx_table(t.value):
+                        ins_keys.append((p_, t.slice, st))
+    if not ins_keys:
+        raise AnalysisError('_open_response: context registration not found')
+    seen_k = set()
+    for p_, key, st in ins_keys:
+        kexpr = p_.resolve(key)
+        ktxt = norm(kexpr, 200)
+        if ktxt in seen_k:
+            continue
+        seen_k.add(ktxt)
+        r9.sites += 1
+        r9.functions.add(opn.fq)
+        srcs = [kexpr]
+        gen = None
+        for c in ast.walk(kexpr):
+            if isinstance(c, ast.Call):
+                d = dotted(c.func) or ''
+                if d.startswith('self.') and d.count('.') == 1:
+                    gen = mp.find_method(d[5:])
+                    if gen is not None:
+                        r9.functions.add(gen.fq)
+                        srcs.append(gen.node)
+        reads_table = any(
+            isinstance(x, ast.Attribute) and x.attr == 'enumeration_contexts'
+            for s_ in srcs for x in ast.walk(s_))
+        good = any(
+            isinstance(c, ast.Call) and (dotted(c.func) or '').split('.')[-1]
+            in ('uuid4', 'uuid1', 'token_hex', 'token_urlsafe', 'next')
+            for s_ in srcs for c in ast.walk(s_))
+        ok = good and not reads_table
+        r9.ob(ok or not reads_table, 'context-id:' + ktxt[:40],
+              {'key': ktxt, 'generator': gen.qualname if gen else None,
+               'reads_context_table': reads_table,
+               'non_repeating_source': good})
+        if reads_table:
+            rep.finding(r9, (gen or opn).qualname, ktxt, 'id-from-table',
+                        MAIN, (gen.node if gen else st).lineno,
+                        'the context id is computed from the context table '
+                        '(e.g. its current size): ids repeat once a context '
+                        'has been closed, so a new enumeration can overwrite '
+                        'a live one and a finished context can be accepted '
+                        'again')
+        elif not good:
+            r9.undecided.append('source of the context id not recognised: '
+                                + ktxt)
     # ---------------- R4 -------------------------------------------------
     for func in (opn, pul, mp.methods.get('_validate_open_params')):
         if func is None:
